@@ -193,6 +193,41 @@ def run(ctx):
             if m != flat or mf != floats:
                 ctx.disagreement('representation: implementation and model differ',
                                  dict(case, impl=flat[-12:], model=(m[-12:] if isinstance(m, list) else m), impl_f=floats, model_f=mf))
+    custom_type(ctx)
+
+
+def custom_type(ctx):
+    """a user-registered type derived from a concrete built-in one is a type of its own: own index, != its parent, different encodings"""
+    from gym_gridverse.grid_object import Color, Wall, grid_object_registry as reg
+    from gym_gridverse.geometry import Shape
+    from gym_gridverse.spaces import StateSpace
+    Wall().type_index()
+
+    class VerifLava(Wall):          # noqa: D401  (subclassing registers it -- for this process only)
+        pass
+    try:
+        idx = [t.type_index() for t in reg]
+        ctx.case(('custom-type', tuple(idx)), True, {'registered': reg.names()})
+        if len(set(idx)) != len(idx) or VerifLava.type_index() != len(reg) - 1:
+            ctx.violation(f'type indices are not unique / positional after registering a subclass of Wall: {idx}', {'names': reg.names()})
+            return
+        if Wall() == VerifLava():
+            ctx.violation('a registered subclass of Wall compares equal to Wall', {})
+        floor = reg.from_name('Floor')
+        space = StateSpace(Shape(2, 2), [floor, Wall, VerifLava], [Color.NONE])
+        from gym_gridverse.agent import Agent
+        from gym_gridverse.geometry import Orientation, Position
+        from gym_gridverse.grid import Grid
+        from gym_gridverse.state import State
+        for kind in rsuite.KINDS:
+            rep = rsuite.make_state_representation(kind, space)
+            a = State(Grid([[floor(), Wall()], [floor(), floor()]]), Agent(Position(1, 0), Orientation.F))
+            b = State(Grid([[floor(), VerifLava()], [floor(), floor()]]), Agent(Position(1, 0), Orientation.F))
+            if rep_equal(rep.convert(a), rep.convert(b)):
+                ctx.violation(f'`{kind}`: states differing in a Wall vs a registered subclass of Wall have equal representations', {})
+    finally:
+        while VerifLava in reg.data:
+            reg.data.remove(VerifLava)
 
 
 if __name__ == '__main__':
